@@ -13,6 +13,15 @@ CLAIMED = {
          "DESIGN.md §4 C18"),
 }
 
+CLAIMED["C19"] = ("Proof over an abstract block cipher (uninterpreted ENC/DEC of key identity and block; block sizes 8 and 16) that each of the eight MAC "
+ "constructions returns exactly `size` bytes equal to its GB/T 15852.1 definition (CBC chaining as a recursive spec function, unbounded message length): CBC-MAC, EMAC, ANSI retail, "
+ "MAC-DES, LMAC, TR-CBC-MAC, CBCR, and CMAC as a streaming state machine over a ghost message (Write for every split, Sum leaves the state untouched, "
+ "Reset/MAC depend only on key material and message: history independence), subkey doubling with R_64/R_128, one-bit shifts; lemmas (CBC extensionality/append) by induction. "
+ "One known finding (CBCR padded case: shift instead of rotation, D21).",
+ "Trusted: cipher.Block and padding.Padding interface contracts and subtle.XORBytes (assumed), block size 8 or 16, the byte-level spec functions in /verif/specs (CBC, CMACBLK, ROTL1/ROTR1, M2ARR), "
+ "callers do not pass slices that alias the MAC object's internal arrays.",
+ "DESIGN.md §4 C19")
+
 NOT_APPLICABLE = {
 }
 
